@@ -199,6 +199,9 @@ func (t *Target) Hello(ctx context.Context, r *server.HelloRequest) (*server.Hel
 		select {
 		case <-time.After(t.slowFor):
 		case <-ctx.Done():
+			// the caller's deadline (propagated by grpc) is over: a real server's work is cancelled, it does not
+			// answer OK at the very moment the deadline fires
+			return nil, status.FromContextError(ctx.Err()).Err()
 		}
 	}
 	return &server.HelloResponse{Hello: "Hello " + r.GetName() + "!"}, nil
